@@ -1645,6 +1645,10 @@ impl Matcher {
 
                                 trace!("got change id: {change_id}");
 
+                                // publish the id first: a subscriber that attaches after the event went
+                                // out but before this transaction commits only learns from it that it
+                                // has to wait for this change
+                                _ = self.last_change_tx.send(change_id);
                                 if !skip_send
                                     && let Err(e) = self.evt_tx.blocking_send(QueryEvent::Change(
                                         change_type,
@@ -1656,7 +1660,6 @@ impl Matcher {
                                     warn!("could not send back row to matcher sub sender: {e}");
                                     return Err(MatcherError::EventReceiverClosed);
                                 }
-                                _ = self.last_change_tx.send(change_id);
                             }
                             Err(e) => {
                                 error!("could not deserialize row's cells: {e}");
